@@ -490,7 +490,7 @@ func (e *explorer) report(v *Violation, path []Op, fill string) bool {
 func Explore(u *Universe, m Monitor, cfg Config) *Result {
 	start := time.Now()
 	if cfg.GCEvery == 0 {
-		cfg.GCEvery = 20000
+		cfg.GCEvery = 2000
 	}
 	if cfg.MaxSamples == 0 {
 		cfg.MaxSamples = 4
@@ -498,7 +498,7 @@ func Explore(u *Universe, m Monitor, cfg Config) *Result {
 	// deterministic memory management: the collector (and with it the
 	// emptying of sync.Pool) only runs at fixed points of the search.
 	debug.SetGCPercent(-1)
-	debug.SetMemoryLimit(6 << 30)
+	debug.SetMemoryLimit(2 << 30) // safety net only: collections normally happen at fixed points of the search
 	runtime.GOMAXPROCS(1)
 	gcAll = cfg.GC
 	if cfg.GC {
